@@ -59,6 +59,7 @@ any_ok = z3.Function("function_returns_on_some_tuple", B)
 is_ok_result = z3.Function("is_the_result_on_an_accepted_tuple", I, B)
 ok_wit_a = z3.Const("accepted_tuple_witness_a", I)
 ok_wit_b = z3.Const("accepted_tuple_witness_b", I)
+ljust_fn = z3.Function("str_ljust", S, I, S)
 first_of = z3.Function("first_item_of_table", I, S)
 fmt_fn = z3.Function("encoder_format", S, I, S)                      # self.format(text, level)
 module_text = z3.Function("encode_module_text", I, I, S)             # self.encode_module(value, level)
@@ -429,6 +430,10 @@ class EncTheory(LexTheory):
         return Z("str", acc if acc is not None else lit(""))
 
     def str_format(self, ex, template, arg_nodes):
+        if template == "{} = " and len(arg_nodes) == 1:
+            a = self.sv(ex.expr(arg_nodes[0]))
+            if a is not None:
+                return Z("str", strcat(a, lit(" = ")))
         if template == "{} = {}" and len(arg_nodes) == 2:
             a, b = [self.sv(ex.expr(x)) for x in arg_nodes]
             if a is not None and b is not None:
@@ -502,6 +507,10 @@ class EncTheory(LexTheory):
         if t is not None:
             if name == "startswith" and self.sv(args[0]) is not None:
                 return Z("bool", prefixof(t, self.sv(args[0])))
+            if name == "startswith" and isinstance(args[0], TupV) and all(self.sv(x) is not None for x in args[0].items):
+                return Z("bool", z3.Or(*[prefixof(t, self.sv(x)) for x in args[0].items]))
+            if name == "ljust" and len(args) == 1 and ex.as_int(args[0]) is not None:
+                return Z("str", ljust_fn(t, ex.as_int(args[0])))
             if name == "endswith" and self.sv(args[0]) is not None:
                 return Z("bool", suffixof(t, self.sv(args[0])))
             if name == "casefold":
